@@ -141,6 +141,13 @@ package node
 //@   ensures[kept-on-failure] ret0 != nil ==> __eq(c.transactionPool, old(c.transactionPool)) && __eq(c.internalTransactionPool, old(c.internalTransactionPool))
 //@   call signAndInsertSelfEvent assert[pools-intact] __eq(c.transactionPool, old(c.transactionPool)) && __eq(c.internalTransactionPool, old(c.internalTransactionPool))
 
+// A submitted transaction only joins the pool, whatever the node's state: it creates no event and touches nothing
+// else (C05: accepted = pending; C17: a non-babbling node's DAG is not changed by submissions).
+//@ func (n *Node) addTransaction(tx []byte)
+//@   requires n != nil && n.core != nil
+//@   modifies n.core.transactionPool
+//@   ensures[queued] len(n.core.transactionPool) == old(len(n.core.transactionPool)) + 1 && __seqeq(n.core.transactionPool[len(n.core.transactionPool)-1], tx) && (forall k int :: 0 <= k && k < old(len(n.core.transactionPool)) ==> __seqeq(n.core.transactionPool[k], old(n.core.transactionPool)[k]))
+
 // recordHeads / sync (C05): the pools change only inside addSelfEvent (whose contract says when and how); a sync
 // that fails before recording heads, or that is truncated, leaves them exactly as they were.
 //@ func (c *core) recordHeads() error
